@@ -121,8 +121,59 @@ func (p *Path) getToken(buf Slice, out Iface) bool {
 		return true
 	}
 	ptr := out.V.(Ptr)
-	storeInPlace(ptr, deepCopy(tok.val, map[Ptr]Ptr{}))
+	nv := deepCopy(tok.val, map[Ptr]Ptr{})
+	// msgpack writes only the keys present in the payload: a sender may leave fields out (omitted, older
+	// version), and those keep whatever the destination held. That differs from "field sent as zero" only when
+	// the destination is not a fresh zero value, so only then is it a choice: the zero-valued fields of the
+	// sent struct were absent (kept from the destination) or present.
+	if old, ok := (*ptr).(Struct); ok {
+		if ns, ok2 := nv.(Struct); ok2 && len(ns) == len(old) && !isZeroVal(old) {
+			if p.Branch(p.newInput("decode.sparse", BoolSort)) {
+				for i := range ns {
+					if isZeroVal(ns[i]) {
+						ns[i] = old[i]
+					}
+				}
+			}
+		}
+	}
+	storeInPlace(ptr, nv)
 	return true
+}
+
+// isZeroVal: v is certainly the zero value of its type (symbolic content counts as non-zero).
+func isZeroVal(v Value) bool {
+	switch x := v.(type) {
+	case nil:
+		return true
+	case *Term:
+		return x.isConst && x.u == 0
+	case *Str:
+		return len(x.b) == 0
+	case Ptr:
+		return x == nil
+	case Slice:
+		return len(x) == 0
+	case Iface:
+		return x.T == nil
+	case Struct:
+		for _, f := range x {
+			if !isZeroVal(f) {
+				return false
+			}
+		}
+		return true
+	case Array:
+		for _, f := range x {
+			if !isZeroVal(f) {
+				return false
+			}
+		}
+		return true
+	case *Map:
+		return x == nil || len(x.ents) == 0
+	}
+	return false
 }
 
 func init() {
